@@ -25,12 +25,12 @@ type shard struct {
 	dead    bool       // a known wedge was diagnosed: the shard must be replaced
 	pending []Mismatch // mismatches of the case in progress
 	slow    bool       // the case in progress hit a seconds-long wait
-	cl   *puppet.Cluster
-	mgr  *dev.Manager
-	qs   *puppet.QSpec
-	all  *dev.Configuration
-	n    int
-	opts []gorums.ManagerOption
+	cl      *puppet.Cluster
+	mgr     *dev.Manager
+	qs      *puppet.QSpec
+	all     *dev.Configuration
+	n       int
+	opts    []gorums.ManagerOption
 }
 
 func fastBackoff() backoff.Config {
